@@ -1192,7 +1192,63 @@ pub fn c09_many_in_flight(rec: &mut Rec, rng: &mut Rng, n_req: usize) {
     sim.w.teardown();
 }
 
+/// two clients half-close with a request in flight each; the application answers BOTH between the same two polls
+/// (one enqueue_responses call): the next poll releases both — "as soon as", not one per poll
+pub fn c09_two_releasable_at_once(rec: &mut Rec, rng: &mut Rng, k_clients: usize) {
+    rec.case("several-releasable-at-once");
+    rec.nontrivial();
+    let mut cfg = Cfg::base("C09");
+    cfg.max_clients = 6;
+    let mut sim = Sim::new(rec, cfg);
+    let w = sim.connect(rec); // a witness that stays
+    let mut gone = vec![];
+    for _ in 0..k_clients {
+        gone.push(sim.connect(rec));
+    }
+    for _ in 0..(k_clients + 2) {
+        sim.poll(rec);
+    }
+    for &i in &gone {
+        sim.send_next(rec, rng, i);
+        while !sim.plans[i].outq.is_empty() {
+            sim.send_next(rec, rng, i);
+        }
+    }
+    for _ in 0..4 {
+        sim.poll(rec);
+    }
+    for &i in &gone {
+        sim.w.shutdown(rec, i, Shutdown::Write);
+    }
+    sim.poll(rec);
+    sim.poll(rec);
+    // all late answers in one call
+    let ks: Vec<usize> = (0..sim.w.held.len()).collect();
+    let mut bodies = vec![];
+    for k in &ks {
+        let t = sim.w.held[*k].tag.clone();
+        if let Some(ci) = sim.w.held[*k].client {
+            sim.plans[ci].answered.push(t.clone());
+        }
+        bodies.push(format!("{}:", t).into_bytes());
+    }
+    sim.w.respond_many(rec, ks, bodies);
+    // ONE poll
+    sim.poll(rec);
+    let conns = sim.w.server_fds().len().saturating_sub(2);
+    if conns != 1 {
+        rec.oracle_fail("C09", &format!("{} clients half-closed with a request in flight each, all answered in one call: after the next poll the server holds {} connections, expected 1 (the witness)", k_clients, conns), &sim.w.log);
+    }
+    let _ = w;
+    sim.settle(rec, rng);
+    common_checks(rec, &mut sim, "C09");
+    sim.w.teardown();
+}
+
 pub fn c09(rec: &mut Rec, rng: &mut Rng, thorough: bool) {
+    for k in [2usize, 3] {
+        c09_two_releasable_at_once(rec, rng, k);
+    }
     regress_f2(rec, rng);
     for n_req in [70usize, 130, if thorough { 700 } else { 260 }] {
         c09_many_in_flight(rec, rng, n_req);
@@ -1981,7 +2037,49 @@ pub fn c18_unsent_output(rec: &mut Rec, rng: &mut Rng, n_clients: usize) {
     sim.w.teardown();
 }
 
+/// "with unanswered requests", many of them from ONE poll: a client pipelines `n_req` small requests in a single write,
+/// one poll yields them, the kill switch is signalled: the very next poll and every later one report shutdown — nothing
+/// the server may still hold from an earlier poll comes first
+pub fn c18_many_yielded_then_kill(rec: &mut Rec, n_req: usize) {
+    rec.case("kill-switch-after-a-big-batch");
+    rec.nontrivial();
+    let mut cfg = Cfg::base("C18");
+    cfg.with_kill = true;
+    let mut sim = Sim::new(rec, cfg);
+    let a = sim.connect(rec);
+    sim.poll(rec);
+    let mut bytes = vec![];
+    for _ in 0..n_req {
+        let j = sim.plans[a].next_req;
+        sim.plans[a].next_req += 1;
+        let t = tag(a, j);
+        bytes.extend_from_slice(format!("GET {} HTTP/1.1\r\n\r\n", t).as_bytes());
+        sim.plans[a].sent.push(t);
+    }
+    sim.w.send(rec, a, &bytes);
+    // exactly as many polls as the input needs reads (one per 1024 bytes), so that nothing is left unread
+    for _ in 0..(bytes.len() / 1024 + 1) {
+        sim.poll(rec);
+    }
+    sim.w.signal_kill(rec);
+    let before = sim.w.shutdown_polls;
+    for _ in 0..3 {
+        if !sim.w.ready() {
+            rec.oracle_fail("C18", "the epoll descriptor is not ready although the kill switch was signalled", &sim.w.log);
+            break;
+        }
+        sim.w.poll(rec);
+    }
+    if sim.w.shutdown_polls < before + 3 || sim.w.nonshutdown_after_kill > 0 || !sim.w.poll_errors.is_empty() {
+        rec.oracle_fail("C18", &format!("{} requests yielded and unanswered, kill switch signalled: {} of 3 polls reported shutdown, {} did not, errors {:?}", n_req, sim.w.shutdown_polls - before, sim.w.nonshutdown_after_kill, sim.w.poll_errors), &sim.w.log);
+    }
+    sim.w.teardown();
+}
+
 pub fn c18(rec: &mut Rec, rng: &mut Rng, thorough: bool) {
+    for n_req in [8usize, 40, 130] {
+        c18_many_yielded_then_kill(rec, n_req);
+    }
     for n_clients in [0usize, 1, 9, 10] {
         for extra in [false, true] {
             c18_all_ready(rec, rng, n_clients, extra);
